@@ -146,6 +146,41 @@ def run(ck):
                 lid = len(lemmas)
                 lemmas.append((lid, f'Lemma k_{lid} : Rabs ({term} - {coq_R(float(Kmat[a, b]))}) <= {coq_R(tol)}.\nProof. kern_closed. kern_simpl. interval with (i_prec 50). Qed.'))
                 lmeta[lid] = dict(desc, a=a, b=b)
+    # (e) internal batching: > 20,000 rows of x (ProductLaplaceKernel batches at 20k) -- every row must still be the closed form
+    nbig = 20_003
+    for j, (kn, tk) in enumerate([(k, t) for k in kinds for t in ('diag', 'full')]):
+        d = 3; nz = 3
+        L = [0.7, 2.0][j % 2]; q = [1.0, 0.8, 1.4, 1.0, 1.2][j % 5]; p = [1.5, 2.0][j % 2]
+        q = min(q, p) if kn == 'lpq' else q
+        X = rng.standard_normal((nbig, d)); Z = rng.standard_normal((nz, d))
+        if tk == 'diag':
+            mat = np.abs(rng.standard_normal(d)) + 0.5
+        else:
+            A = rng.standard_normal((d, d)) / math.sqrt(d) + np.eye(d)
+            mat = A @ A.T if kn == 'l2_light' else A
+        Xt, Zt, mt = torch.tensor(X), torch.tensor(Z), torch.tensor(mat)
+        kobj = make_kernel(xr, kn, L, q, p, 0.25, 2)
+        with xr.quiet():
+            Kbig = kobj.get_kernel_matrix(Xt, Zt, mt).numpy()
+            rows = [0, 1, 9_999, 19_999, 20_000, 20_001, nbig - 1]
+            Ksmall = kobj.get_kernel_matrix(Xt[rows], Zt, mt).numpy()
+        desc = dict(kind='big-x', kernel=kn, transform=tk, rows=nbig, d=d, L=L, q=q, p=p, seed=ck.seed)
+        ck.case(desc, nontrivial=True); ck.count('big-x (20,003 rows)')
+        tolb = 1e-9 if kn != 'l2_light' else 1e-5
+        par = dict(L=L, q=q)
+        if kn == 'lpq':
+            par['p'] = p
+        if kn == 'sum_power':
+            par.update(const_mix=0.25, power=2)
+        mml = [[mp.mpf(float(v)) for v in r] for r in mat] if mat.ndim == 2 else [mp.mpf(float(v)) for v in mat]
+        for ri, r in enumerate(rows):
+            for b in range(nz):
+                want = float(orc.kernel_closed_form(kn, [mp.mpf(float(v)) for v in X[r]], [mp.mpf(float(v)) for v in Z[b]], mml, **par))
+                if abs(want - Kbig[r, b]) > tolb or abs(Ksmall[ri, b] - Kbig[r, b]) > tolb:
+                    ck.violation(f'{kn} kernel entry ({r},{b}) of a {nbig}-row block = {Kbig[r, b]!r}; closed form {want!r}; same row in a {len(rows)}-row block '
+                                 f'{Ksmall[ri, b]!r} on {desc}',
+                                 dict(desc, x=X[r].tolist(), z=Z[b].tolist(), mat=mat.tolist(), got=float(Kbig[r, b]), want=want, row=r),
+                                 key=json.dumps(dict(site='big-x', kernel=kn)))
     res = ck.run_lemma_files('kern', kreal.RHEADER, lemmas, shard=4, timeout=900)
     bad = [lmeta[k] for k, v in res.items() if not v]
     ck.obligation(f'correspondence: {len(lemmas)} kernel matrix entries within tolerance of the Coq op-sequence model (interval-certified)', 'correspondence',
